@@ -299,6 +299,49 @@ theorem outputAt_ok_iff (S : TxHS) (pos0 c : Nat) :
   rw [← getDataAt_eq_some]
   cases S.getDataAt pos0 <;> simp
 
+/-! ### what compaction receives as "spent above the horizon" (`input_pos_to_rewind`) -/
+
+/-- the walk returns exactly the positions listed in the spent-index records of the blocks ON THE
+HEAD'S OWN PATH that lie strictly above the horizon height: a block of another fork never
+contributes whatever its height and records, the horizon block itself never does (`>`), a block
+without a record contributes nothing -/
+theorem mem_inputPosToRewind (n : Node) (S : TxHS) (hh x : Nat) :
+    x ∈ inputPosToRewind n S hh ↔
+      ∃ p, n.path n.head = some p ∧ ∃ b ∈ p, b.h > hh ∧
+        ∃ l, S.getSpentIndex b.id = some l ∧ ∃ cp ∈ l, x = mmr cp.pos + 1 := by
+  unfold inputPosToRewind
+  cases hp : n.path n.head with
+  | none => simp
+  | some p =>
+    simp only [List.mem_flatMap, List.mem_reverse, List.mem_filter, decide_eq_true_eq, Option.some.injEq]
+    constructor
+    · rintro ⟨b, ⟨hb, hgt⟩, hx⟩
+      cases hl : S.getSpentIndex b.id with
+      | none => rw [hl] at hx; simp at hx
+      | some l =>
+        rw [hl] at hx
+        simp only [List.mem_map] at hx
+        obtain ⟨cp, hcp, rfl⟩ := hx
+        exact ⟨p, rfl, b, hb, hgt, l, hl, cp, hcp, rfl⟩
+    · rintro ⟨p', rfl, b, hb, hgt, l, hl, cp, hcp, rfl⟩
+      refine ⟨b, ⟨hb, hgt⟩, ?_⟩
+      rw [hl]
+      exact List.mem_map.mpr ⟨cp, hcp, rfl⟩
+
+/-- what the head block spent is protected whenever the head lies above the horizon -/
+theorem head_spends_protected (n : Node) (S : TxHS) (hh : Nat) (p : List Blk) (b : Blk) (l : List CommitPos)
+    (cp : CommitPos) (hp : n.path n.head = some p) (hb : b ∈ p) (hgt : b.h > hh)
+    (hl : S.getSpentIndex b.id = some l) (hcp : cp ∈ l) :
+    mmr cp.pos + 1 ∈ inputPosToRewind n S hh :=
+  (mem_inputPosToRewind n S hh _).mpr ⟨p, hp, b, hb, hgt, l, hl, cp, hcp, rfl⟩
+
+/-- deleting the spent-index record of a block (or never having one) removes exactly that block's
+contribution: the walk skips it and goes on -/
+theorem inputPosToRewind_without_record (n : Node) (S : TxHS) (hh x : Nat)
+    (h : x ∈ inputPosToRewind n S hh) : ∃ (b : Blk) (l : List CommitPos), S.getSpentIndex b.id = some l ∧ b.h > hh := by
+  obtain ⟨_, _, b, _, hgt, l, hl, _⟩ := (mem_inputPosToRewind n S hh x).mp h
+  exact ⟨b, l, hl, hgt⟩
+
 /-! non-vacuity: a txhashset with a spent leaf in the middle (leaves 0..3 at positions 0, 1, 3, 4;
 leaf 1 spent) -/
 private def S4 : TxHS :=
